@@ -156,7 +156,7 @@ func (c *Ctx) c03Reset(pfx string, m *smtpModel, t *smtpTS) {
 		quiet[v] = true
 	}
 	reads := t.bySite("read")
-	r.Floor(pfx+"/TS/reset", "input read sites reached", len(reads), 2)
+	r.Floor(pfx+"/TS/reset", "input read sites reached", len(reads), 1)
 	ord := map[string]int{}
 	for _, in := range sortedSites(reads) {
 		var bad []tsEvent
@@ -203,7 +203,7 @@ func (c *Ctx) c03Reset(pfx string, m *smtpModel, t *smtpTS) {
 func (c *Ctx) c03Discard(pfx string, m *smtpModel, t *smtpTS) {
 	r, p := c.R, c.P
 	edges := keywordEdges(m.fns, envelopeKeywords)
-	r.Floor(pfx+"/TS/reset", "RSET/EHLO/HELO comparison edges", len(edges), 4)
+	r.Floor(pfx+"/TS/reset", "RSET/EHLO/HELO comparison edges", len(edges), 1)
 	isRead := func(in ssa.Instruction) bool {
 		call, ok := in.(*ssa.Call)
 		if !ok {
@@ -236,7 +236,7 @@ func (c *Ctx) c03Discard(pfx string, m *smtpModel, t *smtpTS) {
 			continue
 		}
 		// structural: from the arm, a return or read is reachable without reset → violation
-		miss := (&eng.Search{Target: eng.Or(eng.IsReturn, isRead), Avoid: resetOrQuit}).FromBlockStart(e.b.Succs[e.k])
+		miss := (&eng.Search{Target: eng.Or(eng.IsReturnOf(fn), isRead), Avoid: resetOrQuit, Deep: true}).FromBlockStart(e.b.Succs[e.k])
 		if miss != nil {
 			r.Bad(pfx+"/TS/reset", cons, p.InstrPos(iff), "the %s arm can be taken with an open envelope (%s) and reaches %s without the envelope reset: the envelope survives %s", e.kw, t.cfgSet(cfgs), p.InstrPos(miss), e.kw)
 		} else {
@@ -245,7 +245,7 @@ func (c *Ctx) c03Discard(pfx string, m *smtpModel, t *smtpTS) {
 	}
 	for _, site := range m.deliverSites {
 		in := site.(ssa.Instruction)
-		miss := (&eng.Search{Target: eng.Or(eng.IsReturn, isRead), Avoid: resetOrQuit}).After(in)
+		miss := (&eng.Search{Target: eng.Or(eng.IsReturnOf(in.Parent()), isRead), Avoid: resetOrQuit, Deep: true}).After(in)
 		cons := "discard:after-Deliver@" + shortFn(in.Parent())
 		if miss != nil {
 			r.Bad(pfx+"/TS/reset", cons, p.InstrPos(in), "after Deliver a path reaches %s without the envelope reset: the next DATA would deliver to the same recipients again", p.InstrPos(miss))
@@ -280,7 +280,7 @@ func (c *Ctx) c03Replies(m *smtpModel, t *smtpTS) {
 		}
 	}
 	nReply := len(t.bySite("reply"))
-	r.Floor("C03/REPLY/one-per-read", "reply sites reached", nReply, 40)
+	r.Floor("C03/REPLY/one-per-read", "reply sites reached", nReply, 1)
 	// unknown reply classes make the count meaningless
 	var unk []string
 	for in, evs := range t.bySite("reply") {
